@@ -23,11 +23,61 @@ func init() {
 		ID: "C02",
 		Rule: "per generated document: (a) random paths (from the root and from random context nodes) whose steps carry 1-3 predicates from the classes {integer in/out of range, fractional, last(), last()-k, position() op k, position() op last(), position() mod 2, boolean, string, node-set, not(), count(), nested, absolute} on forward and reverse axes after multi-node steps; (b) filter expressions (E)[p], $v[p] with $v bound in document and in reverse order, v:nodes()[p], and continuations (E)[p]/step, (E)//step, $v/step, v:nodes()//step; all compared with the reference model; " +
 			"(c) trace monitor: user function v:probe(tag, position(), last()) spliced before and after a predicate records (tag, context node identity, Context.ContextPosition(), position(), last()) and the multiset of events must equal the one the model's own probe records (per-context-node numbering in axis direction, renumbering of survivors), plus ContextPosition()+1 == position(); " +
-			"(e) attribute- and namespace-axis steps carrying position-independent predicates (self::name / self::* / ../self::e / ancestor::e/self::e / not() / count() / string comparisons / and-or combinations), also as the predicate of an element step; (d) library-only identities P[n]==P[position()=n], P[last()]==P[position()=last()], P[true()]==P, P[1.5]/P[0]/P[-1]/P[0 div 0]/P[1 div 0] empty. distinct_nontrivial = distinct (document shape, expression) whose expected result is a non-empty proper subset of the document or whose probe trace has >= 2 events",
+			"(e) attribute- and namespace-axis steps carrying position-independent predicates (self::name / self::* / ../self::e / ancestor::e/self::e / not() / count() / string comparisons / and-or combinations), also as the predicate of an element step; (f) once per run a parent with 70 000 children (thorough: also 2^17+5): [k], [position()=k], [last()], (E)[position()=last()], last()-k, position() mod 65536, sibling axes from both ends, against the model; (d) library-only identities P[n]==P[position()=n], P[last()]==P[position()=last()], P[true()]==P, P[1.5]/P[0]/P[-1]/P[0 div 0]/P[1 div 0] empty. distinct_nontrivial = distinct (document shape, expression) whose expected result is a non-empty proper subset of the document or whose probe trace has >= 2 events",
 		Assumptions: []string{"predicates on '.' and '..' are not in the grammar and not generated", "positional predicates directly on the attribute and namespace axes are not generated (order within an element is implementation-dependent)"},
 		NCases:      func(tier string) int { return map[string]int{"quick": 900, "thorough": 30000}[tier] },
 		Case:        c02Case,
+		Post:        c02Big,
 	})
+}
+
+// c02Big: one parent with more children than fit in 16 bits (thorough: also 17 bits + 5): the
+// numbering of a single predicate's node list must not wrap.
+func c02Big(r *evid.Run, tier string) {
+	sizes := []int{70000}
+	if tier == "thorough" {
+		sizes = append(sizes, 1<<17+5)
+	}
+	for _, n := range sizes {
+		d := adoc.NewDoc()
+		top := d.AddElem(d.Root, "", "r")
+		top.NoXMLNS = true
+		for i := 0; i < n; i++ {
+			c := d.AddElem(top, "", "a")
+			c.NoXMLNS = true
+		}
+		d.Finish()
+		w, err := newWorld(d)
+		if err != nil {
+			r.Inconclusive("big document: " + err.Error())
+			continue
+		}
+		a := func(preds ...xast.Expr) xast.Path {
+			return xast.Abs(xast.S("child", xast.NameT("", "r")), xast.S("child", xast.NameT("", "a"), preds...))
+		}
+		pos, last := xast.Fn("position"), xast.Fn("last")
+		k := float64(65537)
+		exprs := []xast.Expr{
+			a(xast.N(k)), a(xast.Binary{Op: "=", L: pos, R: xast.N(k)}), a(xast.Binary{Op: "=", L: pos, R: xast.N(1)}), a(last), a(xast.Binary{Op: "=", L: pos, R: last}),
+			xast.Path{Head: xast.Paren{X: a()}, HPred: []xast.Expr{xast.Binary{Op: "=", L: pos, R: last}}},
+			xast.Path{Head: xast.Paren{X: a()}, HPred: []xast.Expr{xast.Binary{Op: "=", L: pos, R: xast.N(k)}}},
+			xast.Fn("count", a(xast.Binary{Op: ">", L: pos, R: xast.N(65536)})),
+			a(xast.Binary{Op: "=", L: pos, R: xast.Binary{Op: "-", L: last, R: xast.N(65536)}}),
+			a(xast.Binary{Op: "=", L: xast.Binary{Op: "mod", L: pos, R: xast.N(65536)}, R: xast.N(1)}),
+			xast.Path{Abs: true, Steps: []xast.Step{xast.S("child", xast.NameT("", "r")), xast.S("child", xast.NameT("", "a"), xast.N(float64(n))), xast.S("preceding-sibling", xast.NameT("", "a"), xast.Binary{Op: "=", L: pos, R: xast.N(float64(n - 1))})}},
+			xast.Path{Abs: true, Steps: []xast.Step{xast.S("child", xast.NameT("", "r")), xast.S("child", xast.NameT("", "a"), xast.N(1)), xast.S("following-sibling", xast.NameT("", "a"), last)}},
+			a(xast.Binary{Op: ">", L: pos, R: xast.N(65530)}, xast.Binary{Op: "=", L: pos, R: xast.N(7)}),
+		}
+		for _, e := range exprs {
+			if v, ok := w.check(r, "big/"+fmt.Sprint(n), -1, d.Root, e, false); ok {
+				r.Sig(fmt.Sprintf("big|%d|%s", n, xast.String(e)), true)
+				r.Tab("expr_class", "big-node-list", 1)
+				if ns, isSet := v.(refeval.NodeSet); isSet && len(ns) <= 3 {
+					r.Sample("big", 3, map[string]any{"children": n, "expr": xast.String(e), "result": bridge.Show(v)})
+				}
+			}
+		}
+	}
 }
 
 const probeNS = "urn:v"
